@@ -151,6 +151,24 @@ def check(prog, run):
     if bl is None or "not self.errors" not in ast.unparse(bl.node):
         run.report(r, "%s:SchemaValidator.__bool__:shape" % VAL, sv.module.relpath, "validator truthiness is not `not self.errors`")
 
+    # ---- W1 covariance check descends wrappers level by level
+    from .. import pairwrap
+    pairwrap.check(prog, run, "W1", ["py_gql.schema.schema", "py_gql.schema.validation"], 1)
+
+    # ---- V6 the name pattern is exactly the specification's Name
+    r = run.rule("V6", "the compiled pattern consulted by check_valid_name accepts exactly /[_A-Za-z][_0-9A-Za-z]*/ minus names starting "
+                       "with `__` (Python regex semantics modelled: `\\w`/`\\d` are Unicode-aware without re.ASCII, `$` also matches "
+                       "before a trailing newline, .match is anchored at the start only); decided on the product automaton with a "
+                       "shortest witness", 1)
+    import string
+    from .. import regexrule, rx
+    L, D = frozenset(string.ascii_letters), frozenset(string.digits)
+    W = L | D | {"_"}
+    name_ref = rx.alt(rx.cat(rx.sym(L), rx.star(rx.sym(W))), rx.sym(frozenset({"_"})),
+                      rx.cat(rx.sym(frozenset({"_"})), rx.sym(L | D), rx.star(rx.sym(W))))
+    regexrule.check(prog, run, r, VAL, "VALID_NAME_RE", name_ref, "a well-formed GraphQL name",
+                    "schema validation accepts / rejects that name for every kind of schema element")
+
     # ---- V5 loops over members run to completion
     r = run.rule("V5", "no member-checking loop (one whose body reports or delegates to validate_*/check_*) in a SchemaValidator method ends "
                        "early: no `break` and no `return` inside its body (a violation "
